@@ -54,7 +54,7 @@ def bounds_ok(d, t, v):
 
 
 def run(ctx):
-    n = 150 if ctx.tier == "quick" else 3000
+    n = 300 if ctx.tier == "quick" else 5000
     done = 0
     while done < n and ctx.time_left() > 5:
         batch = gen_valid_graphs(ctx, min(150, n - done))
